@@ -19,7 +19,7 @@ TConns == {"direct", "http", "socks", "quic", "lb", "ok"}
 TKind == [c \in TConns |-> CASE c = "quic" -> "quic" [] c = "lb" -> "lb" [] OTHER -> "dial"]
 TUpOf == [c \in TConns |-> IF c = "lb" THEN {"lb1", "lb2"} ELSE {c}]
 TUpstreams == {"direct", "http", "socks", "quic", "lb1", "lb2", "ok"}
-FaultUp(c) == IF c = "lb" THEN "lb1" ELSE c          \* the driver always takes the first member away
+\* fault / restored records name the upstream process concerned (`up`); for the load balancer that is one of its members
 
 VARIABLES l, topen                                     \* topen: [tunnel id -> record of the spec tunnel]
 tvars == <<vars, l, topen>>
@@ -41,7 +41,7 @@ TFire == \E c \in Conns : IdleFire(c) /\ UNCHANGED <<l, topen>>
 TLate == \E c \in Conns : (LateCreate(c) \/ GiveUp(c)) /\ UNCHANGED <<l, topen>>
 
 TFault == /\ IsEvent("fault")
-          /\ LET u == FaultUp(Rec[l].kind) IN
+          /\ LET u == Rec[l].up IN
                CASE Rec[l].how = "kill" -> Kill(u)
                  [] Rec[l].how = "stall" -> Stall(u)
                  [] Rec[l].how = "hijack-close" -> Garble(u, "garbage")
@@ -49,7 +49,7 @@ TFault == /\ IsEvent("fault")
                  [] Rec[l].how = "hijack-hold" -> Garble(u, "holding")
           /\ UNCHANGED topen
 TRestored == /\ IsEvent("restored")
-             /\ LET u == FaultUp(Rec[l].kind) IN IF Rec[l].how = "stall" THEN Cont(u) ELSE Restart(u)
+             /\ LET u == Rec[l].up IN IF Rec[l].how = "stall" THEN Cont(u) ELSE Restart(u)
              /\ UNCHANGED topen
 (* a probe: the outcome and the logged operation must be ones the model allows in this state; an "ok" must be quick *)
 (* a request whose DESTINATION refuses while the upstream is fine: it fails, and that is all that happens -            *)
